@@ -108,6 +108,11 @@ const char *g_msg_fmt;
  * proof is for code that does not READ the line buffer (log_formatter.c only passes pointers into it).
  * That the whole range [s, s+n) handed to a callee lies inside the line buffer is demanded by LINE_RANGE. */
 int g_L[8];
+const char *g_arg[8];          /* first format argument of each snprintf piece */
+enum aws_date_format g_date_fmt; /* format handed to the timestamp conversion */
+enum aws_log_level g_level_arg;  /* level whose name was asked for */
+const char g_level_name[8];      /* stands for the name aws_log_level_to_string returned (replaced calls) */
+aws_thread_id_t g_tid;           /* what aws_thread_current_thread_id returns */
 size_t g_dlen;
 bool g_derr;
 char *g_line; /* == fd->log_line_buffer (requires of aws_format_standard_log_line) */
@@ -135,18 +140,25 @@ char *g_line; /* == fd->log_line_buffer (requires of aws_format_standard_log_lin
 
 #ifdef VERIF_HOOK_SNPRINTF
 /* g_L[5] == 3 and g_L[7] == 1 (formats without conversions yield their own length) is a requires of the caller */
-int verif_snprintf(char *s, size_t n, const char *fmt)
+/* `arg` is the call's first format argument (the string behind the single %s of the three formats that have one;
+ * NULL for " - " and "\n"); it is recorded in g_arg[piece] so that the caller's contract can say WHAT was printed */
+int verif_snprintf(char *s, size_t n, const char *fmt, const char *arg)
 __CPROVER_requires(fmt != NULL && F_ID(fmt) != 0 && "one of the five formats of the standard log line")
 TEXT_CONTRACT(g_L[F_ID(fmt)], F_ID(fmt), F_NL(fmt))
+__CPROVER_assigns(g_arg[F_ID(fmt)])
+/* (pointer_equals, not ==: a havocked pointer that is only constrained by == has no value set, and `== NULL` is then
+ * unsatisfiable - the path silently becomes vacuous; caught by the canaries) */
+__CPROVER_ensures(__CPROVER_pointer_equals(g_arg[F_ID(fmt)], arg))
 ;
 #    define VERIF_FIRST_ARG(a, ...) a
-#    define snprintf(s, n, ...) verif_snprintf((s), (n), VERIF_FIRST_ARG(__VA_ARGS__, 0))
+#    define VERIF_SECOND_ARG(a, b, ...) b
+#    define snprintf(s, n, ...) verif_snprintf((s), (n), VERIF_FIRST_ARG(__VA_ARGS__, 0), VERIF_SECOND_ARG(__VA_ARGS__, 0, 0))
 #endif
 
 int vsnprintf(char *s, size_t n, const char *fmt, va_list ap)
 TEXT_CONTRACT(g_L[P_MESSAGE], P_MESSAGE, false)
 __CPROVER_assigns(g_msg_fmt)
-__CPROVER_ensures(g_msg_fmt == fmt)
+__CPROVER_ensures(__CPROVER_pointer_equals(g_msg_fmt, fmt))
 ;
 
 /* ---- date_time.c (ASSUMED; derived from strftime, C99 7.23.3.5: on success w >= 1 characters plus a NUL are stored
@@ -169,7 +181,8 @@ __CPROVER_requires(output_buf->capacity > output_buf->len ==> PIECE_STARTS_AT_EN
 __CPROVER_assigns(D_OK(output_buf) : output_buf->len)
 __CPROVER_assigns(g_fmt_on && D_OK(output_buf) && g_w >= POFF(output_buf->buffer) + output_buf->len &&
                   g_w <= POFF(output_buf->buffer) + output_buf->len + g_dlen : g_line[g_w])
-__CPROVER_assigns(g_end, g_err, g_pieces)
+__CPROVER_assigns(g_end, g_err, g_pieces, g_date_fmt)
+__CPROVER_ensures(g_date_fmt == fmt)
 __CPROVER_ensures(RET == AWS_OP_SUCCESS || RET == AWS_OP_ERR)
 __CPROVER_ensures((RET == AWS_OP_SUCCESS) == (!g_derr && g_dlen >= 1 && g_dlen <= AWS_DATE_TIME_STR_MAX_LEN &&
                                              g_dlen < output_buf->capacity - OLD(output_buf->len)))
@@ -187,12 +200,13 @@ __CPROVER_ensures(RET != AWS_OP_SUCCESS ==> g_end == OLD(g_end))
 aws_thread_id_t aws_thread_current_thread_id(void)
 __CPROVER_requires(1)
 __CPROVER_assigns()
-__CPROVER_ensures(1)
+__CPROVER_ensures(RET == g_tid)
 ;
 
 #ifndef VERIF_LOGGING_TU
 int aws_thread_id_t_to_string(aws_thread_id_t thread_id, char *buffer, size_t bufsz)
 __CPROVER_requires(bufsz == AWS_THREAD_ID_T_REPR_BUFSZ && __CPROVER_w_ok(buffer, bufsz))
+__CPROVER_requires(g_fmt_on ==> thread_id == g_tid && "the id that is printed is the current thread's")
 __CPROVER_assigns(__CPROVER_object_upto(buffer, bufsz))
 __CPROVER_assigns(g_err)
 __CPROVER_ensures(RET == AWS_OP_SUCCESS || RET == AWS_OP_ERR)
@@ -201,16 +215,195 @@ __CPROVER_ensures(g_err == (OLD(g_err) || RET != AWS_OP_SUCCESS))
 ;
 #endif
 
+#ifdef VERIF_LOGGING_TU
+static const char *s_log_level_strings[AWS_LL_COUNT]; /* tentative definition; the real one follows in logging.c */
+#endif
+/* enum aws_log_level has no negative enumerator: GCC/Clang (the real build) give it the type unsigned int, CBMC's
+ * front end models it as signed int.  Negative values do not exist in the real build and are excluded here.
+ * (With a compiler that makes enums signed - MSVC - a negative level passes `log_level < AWS_LL_COUNT` in
+ * aws_log_level_to_string and indexes s_log_level_strings[] below 0: reported as an observation, outside C14.) */
+#define LEVEL_REPRESENTABLE(l) ((int)(l) >= 0)
 /* level names (logging.c): success exactly for the seven levels */
 int aws_log_level_to_string(enum aws_log_level log_level, const char **level_string)
-__CPROVER_requires(level_string == NULL || __CPROVER_w_ok(level_string, sizeof(*level_string)))
+__CPROVER_requires(LEVEL_REPRESENTABLE(log_level))
+__CPROVER_requires(level_string == NULL || __CPROVER_is_fresh(level_string, sizeof(*level_string)))
 __CPROVER_assigns(level_string != NULL && log_level < AWS_LL_COUNT : *level_string)
+#ifdef VERIF_FORMATTER_TU
+__CPROVER_assigns(g_level_arg)
+__CPROVER_ensures(g_level_arg == log_level)
+__CPROVER_ensures(RET == AWS_OP_SUCCESS && level_string != NULL ==> __CPROVER_pointer_equals(*level_string, g_level_name))
+#endif
+#ifdef VERIF_TRACK_ERRORS
+__CPROVER_assigns(log_level >= AWS_LL_COUNT : g_last_error, g_raise_count)
+__CPROVER_ensures(RET != AWS_OP_SUCCESS ==> g_last_error == AWS_ERROR_INVALID_ARGUMENT)
+#endif
 __CPROVER_ensures((RET == AWS_OP_SUCCESS) == (log_level < AWS_LL_COUNT))
 __CPROVER_ensures(RET == AWS_OP_SUCCESS || RET == AWS_OP_ERR)
 #ifdef VERIF_LOGGING_TU
-__CPROVER_ensures(RET == AWS_OP_SUCCESS && level_string != NULL ==> *level_string == g_level_names[log_level])
+/* the name is the table entry of that level (that the table holds the right words: plain unit level_names) */
+__CPROVER_ensures(log_level < AWS_LL_COUNT && level_string != NULL ==> *level_string == s_log_level_strings[log_level])
 #endif
 ;
+
+#ifdef VERIF_LOGGING_TU
+/* ---------------------------------------------------------------- level gate (logging.c)
+ * g_level: ghost view of "the level the root logger reports" for loggers behind a vtable. */
+enum aws_log_level g_level;
+enum aws_log_level vt_get_log_level_contract(struct aws_logger *logger, aws_log_subject_t subject)
+__CPROVER_requires(1)
+__CPROVER_assigns()
+__CPROVER_ensures(RET == g_level)
+;
+int g_set_result;
+int vt_set_log_level_contract(struct aws_logger *logger, enum aws_log_level level)
+__CPROVER_requires(1)
+__CPROVER_assigns(g_level)
+__CPROVER_ensures(RET == g_set_result && (RET == AWS_OP_SUCCESS ==> g_level == level))
+;
+
+#    define PIPELINE_OF(logger) ((struct aws_logger_pipeline *)(logger)->p_impl)
+#    define LOGGER_WITH_PIPELINE(logger)                                                                               \
+        (__CPROVER_is_fresh((logger), sizeof(*(logger))) && __CPROVER_is_fresh((logger)->p_impl, sizeof(struct aws_logger_pipeline)))
+
+/* the pipeline logger's level is the word stored in impl->level; a change is what every later read returns */
+static enum aws_log_level s_aws_logger_pipeline_get_log_level(struct aws_logger *logger, aws_log_subject_t subject)
+__CPROVER_requires(LOGGER_WITH_PIPELINE(logger))
+__CPROVER_assigns()
+__CPROVER_ensures(RET == (enum aws_log_level)(size_t)PIPELINE_OF(logger)->level.value)
+;
+static int s_aws_logger_pipeline_set_log_level(struct aws_logger *logger, enum aws_log_level level)
+__CPROVER_requires(LOGGER_WITH_PIPELINE(logger))
+__CPROVER_assigns(PIPELINE_OF(logger)->level)
+__CPROVER_ensures(RET == AWS_OP_SUCCESS)
+__CPROVER_ensures((size_t)PIPELINE_OF(logger)->level.value == (size_t)level)
+;
+
+/* public setter: NULL logger / no vtable -> INVALID_ARGUMENT, no set_log_level -> UNIMPLEMENTED, else the vtable's result */
+int aws_logger_set_log_level(struct aws_logger *logger, enum aws_log_level level)
+__CPROVER_requires(logger == NULL || (__CPROVER_is_fresh(logger, sizeof(*logger)) &&
+                   (logger->vtable == NULL || (__CPROVER_is_fresh(logger->vtable, sizeof(*logger->vtable)) &&
+                    (logger->vtable->set_log_level == NULL ||
+                     __CPROVER_obeys_contract(logger->vtable->set_log_level, vt_set_log_level_contract))))))
+__CPROVER_assigns(g_level, g_last_error, g_raise_count)
+__CPROVER_ensures(logger == NULL || logger->vtable == NULL ==> RET == AWS_OP_ERR && g_last_error == AWS_ERROR_INVALID_ARGUMENT && g_level == OLD(g_level))
+__CPROVER_ensures(logger != NULL && logger->vtable != NULL && logger->vtable->set_log_level == NULL ==>
+                  RET == AWS_OP_ERR && g_last_error == AWS_ERROR_UNIMPLEMENTED && g_level == OLD(g_level))
+__CPROVER_ensures(logger != NULL && logger->vtable != NULL && logger->vtable->set_log_level != NULL ==>
+                  RET == g_set_result && (RET == AWS_OP_SUCCESS ==> g_level == level) && g_raise_count == OLD(g_raise_count))
+;
+#endif
+
+#ifdef VERIF_CHANNEL_TU
+#    include <aws/common/array_list.h>
+/* ---------------------------------------------------------------- channels (log_channel.c), sequential facts only
+ * Ghost view of the channel's mutex and of the calls that must happen under it:
+ *   g_locked                    the channel mutex is held by this thread
+ *   g_lock_calls/g_unlock_calls
+ *   g_write_calls, g_written    calls of the writer's write function, the line of the last one
+ *   g_destroy_calls, g_destroyed calls of aws_string_destroy, its last argument
+ *   g_notify_calls              aws_condition_variable_notify_one calls (made while the mutex is held)
+ *   g_len_at_lock/g_len_at_unlock  length of the pending-lines list when the mutex was taken / given back
+ *   g_push_calls, g_pushed, g_push_pos  appends to the pending list: how many, the last line appended, its index
+ * aws_mutex_lock is a synchronisation point: other senders and the background thread may have changed the pending
+ * list before the lock is granted, so the lock contract HAVOCS the list's length.
+ * The pending list is seen through an ABSTRACT contract of aws_array_list_push_back (bg_push_back_contract: on a
+ * dynamic list the call succeeds, the length grows by one and the new last element is *val; the byte-level contract
+ * is the subject of C09).  Replacing the call by the full C09 contract was tried first: > 5 min (4M clauses). */
+bool g_locked;
+size_t g_lock_calls, g_unlock_calls, g_write_calls, g_destroy_calls, g_notify_calls;
+const struct aws_string *g_written;
+struct aws_string *g_destroyed;
+struct aws_log_writer *g_write_writer;
+struct aws_mutex *g_mutex;                    /* the channel's mutex */
+struct aws_condition_variable *g_signal;      /* the channel's condition variable */
+struct aws_array_list *g_pending;             /* the background channel's pending list, NULL for the foreground channel */
+size_t g_len_at_lock, g_len_at_unlock;
+size_t g_push_calls, g_push_pos;
+struct aws_string *g_pushed;
+#define CH_GHOST_RESET()                                                                                               \
+    do {                                                                                                               \
+        g_locked = false;                                                                                              \
+        g_lock_calls = g_unlock_calls = g_write_calls = g_destroy_calls = g_notify_calls = 0;                          \
+        g_written = NULL;                                                                                              \
+        g_destroyed = NULL;                                                                                            \
+        g_write_writer = NULL;                                                                                         \
+        g_pending = NULL;                                                                                              \
+        g_push_calls = 0;                                                                                              \
+        g_pushed = NULL;                                                                                               \
+    } while (0)
+
+int bg_push_back_contract(struct aws_array_list *list, const void *val)
+__CPROVER_requires(list == g_pending && g_locked && "the pending list is only touched while the channel mutex is held")
+__CPROVER_requires(list->alloc != NULL && list->item_size == sizeof(struct aws_string *) && __CPROVER_r_ok(val, sizeof(struct aws_string *)))
+__CPROVER_assigns(list->length, g_push_calls, g_pushed, g_push_pos)
+__CPROVER_ensures(RET == AWS_OP_SUCCESS && list->length == OLD(list->length) + 1)
+__CPROVER_ensures(g_push_calls == OLD(g_push_calls) + 1 && g_push_pos == OLD(list->length) && g_pushed == *(struct aws_string *const *)val)
+;
+
+int aws_mutex_lock(struct aws_mutex *mutex)
+__CPROVER_requires(mutex == g_mutex && !g_locked && "the channel's own mutex, not held yet")
+__CPROVER_assigns(g_locked, g_lock_calls, g_len_at_lock)
+__CPROVER_assigns(g_pending != NULL : g_pending->length)
+__CPROVER_ensures(RET == AWS_OP_SUCCESS && g_locked && g_lock_calls == OLD(g_lock_calls) + 1)
+__CPROVER_ensures(g_pending != NULL ==> g_len_at_lock == g_pending->length)
+;
+int aws_mutex_unlock(struct aws_mutex *mutex)
+__CPROVER_requires(mutex == g_mutex && g_locked && "the channel's own mutex, held")
+__CPROVER_assigns(g_locked, g_unlock_calls, g_len_at_unlock)
+__CPROVER_ensures(RET == AWS_OP_SUCCESS && !g_locked && g_unlock_calls == OLD(g_unlock_calls) + 1)
+__CPROVER_ensures(g_pending != NULL ==> g_len_at_unlock == g_pending->length)
+;
+int aws_condition_variable_notify_one(struct aws_condition_variable *condition_variable)
+__CPROVER_requires(condition_variable == g_signal && g_locked && "the channel's signal, while the mutex is held")
+__CPROVER_assigns(g_notify_calls)
+__CPROVER_ensures(g_notify_calls == OLD(g_notify_calls) + 1)
+;
+/* what every writer is assumed to do: it is called under the channel mutex with a line that is still alive */
+int vt_write_contract(struct aws_log_writer *writer, const struct aws_string *output)
+__CPROVER_requires(g_locked && g_destroy_calls == 0 && "write is serialised by the channel mutex, the line is alive")
+__CPROVER_assigns(g_write_calls, g_written, g_write_writer)
+__CPROVER_ensures(g_write_calls == OLD(g_write_calls) + 1 && g_written == output && g_write_writer == writer)
+;
+void aws_string_destroy(struct aws_string *str)
+__CPROVER_requires(str == NULL || __CPROVER_is_freeable(str))
+__CPROVER_assigns(g_destroy_calls, g_destroyed)
+__CPROVER_frees(str)
+__CPROVER_ensures(g_destroy_calls == OLD(g_destroy_calls) + 1 && g_destroyed == str)
+;
+
+/* clean-up of the background channel: the thread is joined only after `finished` was set and signalled under the
+ * mutex and the mutex was released; nothing the thread uses is torn down before the join has returned */
+bool *g_finished_flag;      /* &impl->finished */
+struct aws_thread *g_thread; /* &impl->background_thread */
+size_t g_join_calls, g_teardown_calls;
+#define CH_CLEANUP_GHOST_RESET() do { g_join_calls = 0; g_teardown_calls = 0; } while (0)
+int aws_thread_join(struct aws_thread *thread)
+__CPROVER_requires(thread == g_thread && !g_locked && g_unlock_calls >= 1 && g_notify_calls >= 1 && *g_finished_flag &&
+                   "join after finished was set and signalled, with the mutex released")
+__CPROVER_assigns(g_join_calls)
+__CPROVER_ensures(RET == AWS_OP_SUCCESS && g_join_calls == OLD(g_join_calls) + 1)
+;
+#define TEARDOWN_CONTRACT                                                                                              \
+    __CPROVER_requires(g_join_calls == 1 && !g_locked && "torn down only after the background thread was joined")      \
+    __CPROVER_assigns(g_teardown_calls)                                                                                \
+    __CPROVER_ensures(g_teardown_calls == OLD(g_teardown_calls) + 1)
+void aws_thread_clean_up(struct aws_thread *thread)
+__CPROVER_requires(thread == g_thread)
+TEARDOWN_CONTRACT
+;
+void aws_condition_variable_clean_up(struct aws_condition_variable *condition_variable)
+__CPROVER_requires(condition_variable == g_signal)
+TEARDOWN_CONTRACT
+;
+void aws_mutex_clean_up(struct aws_mutex *mutex)
+__CPROVER_requires(mutex == g_mutex)
+TEARDOWN_CONTRACT
+;
+void bg_list_clean_up_contract(struct aws_array_list *list)
+__CPROVER_requires(list == g_pending)
+TEARDOWN_CONTRACT
+;
+#endif
 
 #endif /* VERIF_CONTRACTS_LOGGING_H */
 
@@ -227,17 +420,29 @@ __CPROVER_ensures(RET == AWS_OP_SUCCESS && level_string != NULL ==> *level_strin
  *            the pieces are level, timestamp, thread id, [subject], " - ", message, newline - each once, in this order,
  *            the message format is the caller's format.
  * (g_strict || !g_trunc) - see the top of the file. */
+/* The formatting data and the line buffer are two separate live objects, the buffer starts its object (offset 0, so
+ * that positions in the line are pointer offsets) and has total_length bytes.  rw_ok/w_ok instead of is_fresh: the
+ * harness owns the two objects (one malloc each), which keeps the points-to sets exact; with is_fresh the same unit
+ * costs 4x the solver time.  total_length <= 2^31: the pieces' lengths travel through `int` (snprintf), longer lines
+ * cannot be described by the interface; the bound also keeps all index arithmetic below 2^33 (3x solver time). */
+#        define FMT_MAX_TOTAL ((size_t)1 << 31)
+#        define FD_OK(fd)                                                                                             \
+            (__CPROVER_rw_ok((fd), sizeof(*(fd))) && (fd)->total_length <= FMT_MAX_TOTAL &&                            \
+             __CPROVER_r_ok((fd)->format, 1) && ((fd)->subject_name == NULL || __CPROVER_r_ok((fd)->subject_name, 1)) && \
+             ((fd)->total_length == 0 ||                                                                               \
+              (__CPROVER_w_ok((fd)->log_line_buffer, (fd)->total_length) && POFF((fd)->log_line_buffer) == 0 &&        \
+               !__CPROVER_same_object((fd), (fd)->log_line_buffer))))
 #        define LINE_CLAIMED (RET == AWS_OP_SUCCESS && fd->total_length >= 2 && (g_strict || !g_trunc))
 int aws_format_standard_log_line(struct aws_logging_standard_formatting_data *fd, va_list args)
-__CPROVER_requires(__CPROVER_is_fresh(fd, sizeof(*fd)))
-__CPROVER_requires(fd->total_length == 0 || __CPROVER_is_fresh(fd->log_line_buffer, fd->total_length))
+__CPROVER_requires(FD_OK(fd) && LEVEL_REPRESENTABLE(fd->level))
 __CPROVER_requires(g_fmt_on && g_end == 0 && !g_trunc && !g_err && g_pieces == 0)
 __CPROVER_requires(g_L[5] == 3 && g_L[7] == 1)
-__CPROVER_requires(fd->total_length > 0 ==> __CPROVER_pointer_equals(g_line, fd->log_line_buffer))
+__CPROVER_requires(fd->total_length > 0 ==> g_line == fd->log_line_buffer)
 __CPROVER_assigns(fd->amount_written)
 __CPROVER_assigns(fd->total_length > 0 : __CPROVER_object_upto(fd->log_line_buffer, fd->total_length))
 __CPROVER_assigns(__CPROVER_object_whole(&tl_logging_thread_id))
-__CPROVER_assigns(g_end, g_trunc, g_err, g_pieces, g_msg_fmt)
+__CPROVER_assigns(g_end, g_trunc, g_err, g_pieces, g_msg_fmt, g_date_fmt, g_level_arg)
+__CPROVER_assigns(__CPROVER_object_whole(g_arg))
 /* exact result */
 __CPROVER_ensures(RET == AWS_OP_SUCCESS || RET == AWS_OP_ERR)
 __CPROVER_ensures((RET == AWS_OP_SUCCESS) == (fd->level < AWS_LL_COUNT && fd->total_length > 0 && !g_err))
@@ -252,6 +457,119 @@ __CPROVER_ensures(LINE_CLAIMED && g_w < fd->amount_written ==> fd->log_line_buff
 __CPROVER_ensures(RET == AWS_OP_SUCCESS && !g_trunc ==> g_pieces == (fd->subject_name != NULL ? 01234567u : 0123567u))
 __CPROVER_ensures(RET == AWS_OP_SUCCESS ==> g_pieces % 8 == 7)
 __CPROVER_ensures(RET == AWS_OP_SUCCESS && !g_trunc ==> g_msg_fmt == fd->format)
+/* what the prefix shows: the name of the call's level, the time in the requested format, the current thread's id
+ * string (cached per thread in tl_logging_thread_id.repr), the call's subject */
+__CPROVER_ensures(RET == AWS_OP_SUCCESS ==> g_level_arg == fd->level && g_arg[1] == g_level_name)
+__CPROVER_ensures(RET == AWS_OP_SUCCESS && !g_trunc ==> g_date_fmt == fd->date_format)
+__CPROVER_ensures(RET == AWS_OP_SUCCESS && !g_trunc ==> g_arg[3] == tl_logging_thread_id.repr && tl_logging_thread_id.is_valid)
+__CPROVER_ensures(RET == AWS_OP_SUCCESS && !g_trunc && fd->subject_name != NULL ==> g_arg[4] == fd->subject_name)
+;
+#    endif
+
+#    ifdef VERIF_LOGGING_TU
+/* The gate's function twin.  NULL <=> there is no root logger or the logger's level is below the call's level. */
+#        define ROOT_LOGGER_OK                                                                                         \
+            (s_root_logger_ptr == NULL ||                                                                              \
+             (__CPROVER_is_fresh(s_root_logger_ptr, sizeof(struct aws_logger)) &&                                      \
+              __CPROVER_is_fresh(s_root_logger_ptr->vtable, sizeof(struct aws_logger_vtable)) &&                       \
+              __CPROVER_obeys_contract(s_root_logger_ptr->vtable->get_log_level, vt_get_log_level_contract)))
+struct aws_logger *aws_logger_get_conditional(aws_log_subject_t subject, enum aws_log_level level)
+__CPROVER_requires(ROOT_LOGGER_OK)
+__CPROVER_assigns()
+__CPROVER_ensures((RET != NULL) == (OLD(s_root_logger_ptr) != NULL && g_level >= level))
+__CPROVER_ensures(RET != NULL ==> RET == OLD(s_root_logger_ptr))
+__CPROVER_ensures(s_root_logger_ptr == OLD(s_root_logger_ptr))
+;
+
+/* installing a logger: NULL installs the null logger (whose level is NONE), never a NULL root */
+void aws_logger_set(struct aws_logger *logger)
+__CPROVER_requires(1)
+__CPROVER_assigns(s_root_logger_ptr)
+__CPROVER_ensures(s_root_logger_ptr == (logger != NULL ? logger : &s_null_logger))
+;
+struct aws_logger *aws_logger_get(void)
+__CPROVER_requires(1)
+__CPROVER_assigns()
+__CPROVER_ensures(RET == s_root_logger_ptr)
+;
+
+/* the no-alloc logger keeps its level the same way as the pipeline logger */
+#        define NOALLOC_OF(logger) ((struct aws_logger_noalloc *)(logger)->p_impl)
+#        define LOGGER_WITH_NOALLOC(logger)                                                                            \
+            (__CPROVER_is_fresh((logger), sizeof(*(logger))) && __CPROVER_is_fresh((logger)->p_impl, sizeof(struct aws_logger_noalloc)))
+static enum aws_log_level s_noalloc_stderr_logger_get_log_level(struct aws_logger *logger, aws_log_subject_t subject)
+__CPROVER_requires(LOGGER_WITH_NOALLOC(logger))
+__CPROVER_assigns()
+__CPROVER_ensures(RET == (enum aws_log_level)(size_t)NOALLOC_OF(logger)->level.value)
+;
+int s_no_alloc_stderr_logger_set_log_level(struct aws_logger *logger, enum aws_log_level level)
+__CPROVER_requires(LOGGER_WITH_NOALLOC(logger))
+__CPROVER_assigns(NOALLOC_OF(logger)->level)
+__CPROVER_ensures(RET == AWS_OP_SUCCESS)
+__CPROVER_ensures((size_t)NOALLOC_OF(logger)->level.value == (size_t)level)
+;
+#    endif
+
+#    ifdef VERIF_CHANNEL_TU
+/* Foreground channel: the line is written exactly once, by the channel's writer, while the channel mutex is held, and
+ * destroyed exactly once afterwards (send is a transfer of ownership); the mutex is released; always AWS_OP_SUCCESS. */
+static int s_foreground_channel_send(struct aws_log_channel *channel, struct aws_string *log_line)
+__CPROVER_requires(__CPROVER_is_fresh(channel, sizeof(*channel)))
+__CPROVER_requires(__CPROVER_is_fresh(channel->impl, sizeof(struct aws_log_foreground_channel)))
+__CPROVER_requires(__CPROVER_is_fresh(channel->writer, sizeof(*channel->writer)))
+__CPROVER_requires(__CPROVER_is_fresh(channel->writer->vtable, sizeof(*channel->writer->vtable)))
+__CPROVER_requires(__CPROVER_obeys_contract(channel->writer->vtable->write, vt_write_contract))
+__CPROVER_requires(__CPROVER_is_fresh(log_line, sizeof(struct aws_string)))
+__CPROVER_requires(g_mutex == &((struct aws_log_foreground_channel *)channel->impl)->sync && g_pending == NULL)
+__CPROVER_requires(!g_locked && g_write_calls == 0 && g_destroy_calls == 0)
+__CPROVER_assigns(g_locked, g_lock_calls, g_unlock_calls, g_len_at_lock, g_len_at_unlock)
+__CPROVER_assigns(g_write_calls, g_written, g_write_writer, g_destroy_calls, g_destroyed)
+__CPROVER_frees(log_line)
+__CPROVER_ensures(RET == AWS_OP_SUCCESS)
+__CPROVER_ensures(g_write_calls == 1 && g_written == log_line && g_write_writer == channel->writer)
+__CPROVER_ensures(g_destroy_calls == 1 && g_destroyed == log_line)
+__CPROVER_ensures(!g_locked && g_lock_calls == OLD(g_lock_calls) + 1 && g_unlock_calls == OLD(g_unlock_calls) + 1)
+;
+
+/* Background channel, sender side: under the channel mutex exactly one element - this line - is appended at the end
+ * of the pending list as it is at that moment (whatever other threads did before the lock was granted), the
+ * background thread is notified while the mutex is held, the mutex is released; always AWS_OP_SUCCESS.
+ * The pending list is the dynamic list aws_log_channel_init_background creates (alloc != NULL: growing cannot fail,
+ * OOM aborts in this library version). */
+#        define BG(channel) ((struct aws_log_background_channel *)(channel)->impl)
+static int s_background_channel_send(struct aws_log_channel *channel, struct aws_string *log_line)
+__CPROVER_requires(__CPROVER_is_fresh(channel, sizeof(*channel)))
+__CPROVER_requires(__CPROVER_is_fresh(channel->impl, sizeof(struct aws_log_background_channel)))
+__CPROVER_requires(BG(channel)->pending_log_lines.alloc != NULL && BG(channel)->pending_log_lines.item_size == sizeof(struct aws_string *))
+__CPROVER_requires(__CPROVER_pointer_equals(g_pending, &BG(channel)->pending_log_lines))
+__CPROVER_requires(g_mutex == &BG(channel)->sync && g_signal == &BG(channel)->pending_line_signal)
+__CPROVER_requires(!g_locked && g_push_calls == 0)
+__CPROVER_assigns(BG(channel)->pending_log_lines.length)
+__CPROVER_assigns(g_locked, g_lock_calls, g_unlock_calls, g_len_at_lock, g_len_at_unlock, g_notify_calls, g_push_calls, g_pushed, g_push_pos)
+__CPROVER_ensures(RET == AWS_OP_SUCCESS)
+__CPROVER_ensures(!g_locked && g_lock_calls == OLD(g_lock_calls) + 1 && g_unlock_calls == OLD(g_unlock_calls) + 1)
+__CPROVER_ensures(g_notify_calls == OLD(g_notify_calls) + 1)
+/* exactly one append, of this line, at the end of the list as it was when the lock was granted */
+__CPROVER_ensures(g_push_calls == 1 && g_pushed == log_line && g_push_pos == g_len_at_lock)
+__CPROVER_ensures(g_len_at_unlock == g_len_at_lock + 1 && BG(channel)->pending_log_lines.length == g_len_at_unlock)
+;
+
+/* Background channel clean-up (sequential protocol; that the joined thread has by then written every accepted line is
+ * a fact about the thread body under interleavings and is NOT decided here). */
+static void s_background_channel_clean_up(struct aws_log_channel *channel)
+__CPROVER_requires(__CPROVER_is_fresh(channel, sizeof(*channel)) && channel->allocator != NULL)
+__CPROVER_requires(__CPROVER_is_fresh(channel->impl, sizeof(struct aws_log_background_channel)))
+__CPROVER_requires(__CPROVER_pointer_equals(g_pending, &BG(channel)->pending_log_lines))
+__CPROVER_requires(__CPROVER_pointer_equals(g_finished_flag, &BG(channel)->finished))
+__CPROVER_requires(g_mutex == &BG(channel)->sync && g_signal == &BG(channel)->pending_line_signal && g_thread == &BG(channel)->background_thread)
+__CPROVER_requires(!g_locked && g_lock_calls == 0 && g_unlock_calls == 0 && g_notify_calls == 0 && g_join_calls == 0 && g_teardown_calls == 0)
+__CPROVER_assigns(BG(channel)->finished, BG(channel)->pending_log_lines.length)
+__CPROVER_assigns(g_locked, g_lock_calls, g_unlock_calls, g_len_at_lock, g_len_at_unlock, g_notify_calls, g_join_calls, g_teardown_calls)
+__CPROVER_frees(channel->impl)
+__CPROVER_ensures(!g_locked && g_lock_calls == 1 && g_unlock_calls == 1 && g_notify_calls == 1)
+__CPROVER_ensures(g_join_calls == 1 && g_teardown_calls == 4)
+/* clean-up does not add or remove pending lines itself */
+__CPROVER_ensures(g_len_at_unlock == g_len_at_lock)
 ;
 #    endif
 
